@@ -582,6 +582,15 @@ LEX_STMTS = [
     ("match-star-subject", "match *s0, s1:\n    case [*a0, b0]:\n        pass\n"),
     ("match-soft", "match = 1\ncase = 2\nmatch[case]\nprint(match, case)\n"),
     # star targets
+    ("empty-target-for", "for () in s0:\n    pass\nfor [] in s0: pass\n"),
+    ("empty-target-assign", "() = s0\n[] = s0\na0, () = s0\n"),
+    ("empty-target-del", "del ()\ndel []\n"),
+    ("empty-target-with", "with c0 as ():\n    pass\n"),
+    ("empty-target-comp", "r0 = [1 for () in s0]\n"),
+    ("empty-display-load", "r0 = (), [], {}\ng0((), [])\n"),
+    ("sig-star-annot-unpack", "def f0(*p0: *T0):\n    pass\n"),
+    ("sig-star-annot-unpack-more", "def f0(p0, *p1: *tuple[int, ...], p2: int = 1, **p3: str) -> None:\n    pass\n"),
+    ("sig-star-annot-plain", "def f0(*p0: T0, **p1: T1):\n    pass\n"),
     ("star-target", "a0, *b0 = s0\n*a1, b1 = s0\n[a2, *b2] = s0\n(a3, (b3, *c3)) = s0\n"),
     ("star-for", "for a0, *b0 in s0:\n    pass\nfor (a1, b1), c1 in s0: pass\n"),
     ("star-subscript", "a0[0], b0.at0, *c0[1:2] = s0\n"),
@@ -724,6 +733,31 @@ TRIGGER_STMTS = [
     ("trig-star-deco", "@d0(*a0)\ndef f0(): pass\n"),
     ("trig-all", "class C0:\n    def m0(self, *p0):\n        return str(g0(*p0, ego, globalParameters.qq, int(workspace.at0)))\n"),
 ]
+
+def arg_orderings(maxeach=2):
+    """Every order of 0..maxeach positional (P), *iterable (S), keyword (K) and **mapping (D) arguments
+    that CPython accepts in a call (the same list is accepted for class bases/keywords), as
+    (order string, argument text)."""
+    seen = set()
+    for a, b, c, d in itertools.product(range(maxeach + 1), repeat=4):
+        for perm in set(itertools.permutations("P" * a + "S" * b + "K" * c + "D" * d)):
+            seen.add("".join(perm))
+    out = []
+    for o in sorted(seen, key=lambda x: (len(x), x)):
+        cnt = {"P": 0, "S": 0, "K": 0, "D": 0}
+        parts = []
+        for ch in o:
+            i = cnt[ch]
+            cnt[ch] += 1
+            parts.append({"P": f"a{i}", "S": f"*s{i}", "K": f"k{i}=w{i}", "D": f"**d{i}"}[ch])
+        args = ", ".join(parts)
+        try:
+            ast.parse(f"g0({args})\n")
+        except SyntaxError:
+            continue
+        out.append((o or "none", args))
+    return out
+
 
 _KEYWORDS_CACHE = None
 
@@ -874,7 +908,7 @@ def all_cases(tier, seed):
             emb.append(("expr", pid, ast.unparse(b[0].value)))
     if tier == "quick":
         rnd.shuffle(emb)
-        emb = emb[: len(emb) // 6]
+        emb = emb[: len(emb) // 8]
         emb.sort()
     for e in emb:
         if e[0] == "beh":
@@ -886,6 +920,21 @@ def all_cases(tier, seed):
                 add(f"pw-req{'P' if paren else 'U'}:" + e[1], "require", s, p, "pair")
                 s, p = embed_expr(SPEC_PREFIX, e[2], paren)
                 add(f"pw-spec{'P' if paren else 'U'}:" + e[1], "specifier", s, p, "pair")
+
+    # ---- argument lists: every order of positional / *args / keyword / **kwargs CPython accepts (0..2 of
+    # each), in calls and in class definitions (all at module level; calls also inside behaviours)
+    orders = arg_orderings()
+    stats["arg_orderings"] = len(orders)
+    for k, (o, args) in enumerate(orders):
+        t = f"r0 = g0({args})\n"
+        add(f"ord:call:{o}", "module", t, t, "order")
+        t = f"class C0({args}):\n    pass\n"
+        add(f"ord:class:{o}", "module", t, t, "order")
+        if tier != "quick" or (k + seed) % 4 == 0:
+            s_, p_ = embed_behavior(f"r0 = g0({args})\n")
+            add(f"ord-beh:call:{o}", "behavior", s_, p_, "order")
+            s_, p_ = embed_expr(REQ_PREFIX, f"g0({args})", True)
+            add(f"ord-reqP:call:{o}", "require", s_, p_, "order")
 
     # ---- lexical catalogue and rewrite triggers: every context
     for group, stmts, exprs in (("lex", LEX_STMTS, LEX_EXPRS), ("trig", TRIGGER_STMTS, TRIGGER_EXPRS)):
